@@ -37,12 +37,12 @@ P = ["C09"]
 ST = {"open": (LinkStatus.Open, LinkStatus.Active), "closed": (LinkStatus.Closed, LinkStatus.Active),
       "internally_closed": (LinkStatus.Open, LinkStatus.Closed), "active_valve": (LinkStatus.Active, LinkStatus.Active),
       "running_head_pump": (LinkStatus.Open, LinkStatus.Active), "running_power_pump": (LinkStatus.Open, LinkStatus.Active),
-      "pump_shut_by_the_simulator": (LinkStatus.Open, LinkStatus.Closed)}
-LINK_CLASS = {"active_valve": PRValve, "running_head_pump": HeadPump, "pump_shut_by_the_simulator": HeadPump}
+      "pump_shut_by_the_simulator": (LinkStatus.Open, LinkStatus.Closed), "valve_closed_by_a_control": (LinkStatus.Closed, LinkStatus.Active)}
+LINK_CLASS = {"active_valve": PRValve, "running_head_pump": HeadPump, "pump_shut_by_the_simulator": HeadPump, "valve_closed_by_a_control": PRValve}
 
 
 def _is_closed(s):
-    return s in ("closed", "internally_closed", "pump_shut_by_the_simulator")
+    return s in ("closed", "internally_closed", "pump_shut_by_the_simulator", "valve_closed_by_a_control")
 
 
 class Tracker(NativeModel):
@@ -112,7 +112,8 @@ def _init_graph_case(s_single, s_a, s_b, reverse_b):
             u, i = ST[st]
             from wntr.network.elements import PowerPump
             cls = PowerPump if st == "running_power_pump" else LINK_CLASS.get(st, Pipe)
-            return mk_link(cx, cls, name, a, b, _user_status=u, _internal_status=i)
+            # the status a link STARTED with says the opposite of its current one (a control changed it; the run was paused and is continued)
+            return mk_link(cx, cls, name, a, b, _user_status=u, _internal_status=i, _initial_status=LinkStatus.Open if _is_closed(st) else LinkStatus.Closed)
         S, A = link("S", s_single, R, J0), link("A", s_a, J0, J1)
         B = link("B", s_b, J1, J0) if reverse_b else link("B", s_b, J0, J1)
         links = {"S": S, "A": A, "B": B}
@@ -154,7 +155,9 @@ _init_cases = [_init_graph_case(s, a, b, rev) for s in ("open", "closed", "inter
                for rev in (False, True)] + \
               [_init_graph_case(s, a, b, rev) for (s, a, b) in (("running_head_pump", "closed", "closed"), ("running_power_pump", "open", "closed"),
                                                                   ("pump_shut_by_the_simulator", "open", "open"), ("open", "running_head_pump", "closed"),
-                                                                  ("closed", "closed", "running_head_pump"), ("open", "running_power_pump", "internally_closed"))
+                                                                  ("closed", "closed", "running_head_pump"), ("open", "running_power_pump", "internally_closed"),
+                                                                  ("valve_closed_by_a_control", "open", "closed"), ("open", "valve_closed_by_a_control", "closed"),
+                                                                  ("active_valve", "closed", "valve_closed_by_a_control"))
                for rev in (False, True)]
 
 
